@@ -52,7 +52,8 @@ GROUPS = ["tempo", "dynamics", "correlations", "gradient", "control",
 def required_cells(tier):
     req = {"layout:" + k: 3 for k in LAYOUTS}
     req.update({"group:" + g: 2 for g in GROUPS})
-    req.update({"alias": 6, "history": 6, "attr:alpha": 1,
+    req.update({"alias": 6, "history": 6, "history:control-on-two-grids": 3,
+                "attr:alpha": 1,
                 "attr:temperature": 1, "attr:cutoff": 1, "attr:zeta": 1,
                 "attr:cutoff_type": 1, "attr:j_function": 1,
                 "attr:pttebd_parameters": 1, "attr:bath_before_change": 2,
@@ -489,13 +490,25 @@ def run_history(case):
     tgt = gen.rand_herm(rng, d)
     end = lib.end_time(0.0, dt, n)
 
+    kick = scen.random_superop(gen.rng_for(case["seed"], "c20hk", i), d,
+                               "unitary")
+    kick2 = scen.random_superop(gen.rng_for(case["seed"], "c20hk2", i), d,
+                                "channel")
+
+    def make_control():
+        c = oqupy.Control(d)
+        c.add_single(0.2, kick.copy())          # float time
+        c.add_single(1, kick2.copy(), post=True)  # int step
+        return c
+
     def fresh():
         corr = gen.make_power_law(sdp) if i % 2 else gen.make_custom_sd(sdp)
         return dict(corr=corr, bath=oqupy.Bath(o.copy(), corr),
                     sysm=oqupy.System(h.copy(), [0.1], [lop.copy()]),
                     params=oqupy.TempoParameters(dt=dt, epsrel=1e-8, dkmax=2),
                     psys=oqupy.ParameterizedSystem(lambda x: x * h),
-                    tparams=oqupy.PtTebdParameters(dt=dt, epsrel=1e-9))
+                    tparams=oqupy.PtTebdParameters(dt=dt, epsrel=1e-9),
+                    control=make_control())
 
     def make_pt(ob):
         return oqupy.pt_tempo_compute(ob["bath"], 0.0, end, ob["params"],
@@ -510,6 +523,29 @@ def run_history(case):
         return np.array(oqupy.compute_dynamics(
             ob["sysm"], rho.copy(), process_tensor=pt,
             progress_type="silent").states)
+
+    # one Control object (a float-time and an int-step control) used on
+    # different time grids: t=0.2 is step 2, step 1 (start 0.1), step 4
+    # (dt 0.05) - what it means must be worked out per computation
+    def op_ctl(ob, pt):
+        return np.array(oqupy.compute_dynamics(
+            ob["sysm"], rho.copy(), process_tensor=pt, control=ob["control"],
+            progress_type="silent").states)
+
+    def op_ctl_shift(ob, pt):
+        return np.array(oqupy.compute_dynamics(
+            ob["sysm"], rho.copy(), process_tensor=pt, control=ob["control"],
+            start_time=0.1, progress_type="silent").states)
+
+    def op_ctl_dt(ob, pt):
+        if "pt2" not in ob:
+            ob["pt2"] = oqupy.pt_tempo_compute(
+                ob["bath"], 0.0, lib.end_time(0.0, 0.05, 2 * n),
+                oqupy.TempoParameters(dt=0.05, epsrel=1e-8, dkmax=4),
+                progress_type="silent")
+        return np.array(oqupy.compute_dynamics(
+            ob["sysm"], rho.copy(), process_tensor=ob["pt2"],
+            control=ob["control"], progress_type="silent").states)
 
     def op_corr(ob, pt):
         return np.nan_to_num(np.asarray(oqupy.compute_correlations(
@@ -544,10 +580,16 @@ def run_history(case):
                          for k in range(1, 4)]
                         + [c.correlation(0.3)])
     ops = {"tempo": op_tempo, "dyn": op_dyn, "corr": op_corr,
-           "grad": op_grad, "tebd": op_tebd, "pt": op_pt, "eta": op_eta}
+           "grad": op_grad, "tebd": op_tebd, "pt": op_pt, "eta": op_eta,
+           "ctl": op_ctl, "ctl_shift": op_ctl_shift, "ctl_dt": op_ctl_dt}
     names = list(ops)
     seq = [names[int(x)] for x in rng.integers(0, len(names),
                                                size=int(rng.integers(4, 8)))]
+    if i % 2 == 0:
+        # make sure the shared Control meets at least two different grids
+        ctl = ["ctl", "ctl_shift", "ctl_dt"]
+        k0 = int(rng.integers(0, 3))
+        seq[0], seq[-1] = ctl[k0], ctl[(k0 + 1 + int(rng.integers(0, 2))) % 3]
     shared = fresh()
     shared_pt = make_pt(shared)
     violations = []
@@ -576,7 +618,10 @@ def run_history(case):
                         f"on freshly built equal objects by {dev:.3e}",
                 "mechanism": "stale-state", "detail": {"seq": seq}})
             break
-    return {"violations": violations, "cells": ["history"],
+    cells = ["history"]
+    if len({x for x in seq if x.startswith("ctl")}) >= 2:
+        cells.append("history:control-on-two-grids")
+    return {"violations": violations, "cells": cells,
             "monitors": {"history_ops_compared": len(seq)},
             "nontrivial": len(set(seq)) >= 2,
             "signature": "hist-" + "-".join(seq), "maxratio": worst,
